@@ -989,6 +989,8 @@ class Sym:
         if k == "for": return self.forloop(e, env)
         if k == "call":
             f = e[1]
+            if f[0] == "path" and "::".join(f[1]) in self.fns and callable(self.fns["::".join(f[1])]):
+                return self.fns["::".join(f[1])]([self.ev(a, env) for a in e[2]])          # a constructor that is translated elsewhere
             if f[0] == "path" and "::".join(f[1]) in self.fns:
                 fdef = self.fns["::".join(f[1])]
                 ast, pnames = fdef[0], fdef[1]
